@@ -288,12 +288,21 @@ def run (ctx):
   cr = iow.find_method('consume_receive_buf')
   if cr is not None:
     ctx.analysed(cr); gc_ = q.cfg_of(cr)
-    cut = [q.enclosing_stmt_node(gc_, st) for t, v, st, k in q.stores_in(cr.node) if norm(t) == 'self.receive_buf' and isinstance(v, ast.Subscript)]
-    for n in cut:
-      lt = [1 for l_, o_, r_, b_ in q.guard_facts(gc_, n) if r_ is not None and
-            ((o_ == '>=' and norm(l_) == 'len(self.receive_buf)' and norm(r_) == cr.params[1]) or (o_ == '<=' and norm(r_) == 'len(self.receive_buf)' and norm(l_) == cr.params[1]))]
-      ctx.ob('R-DOM', cr, "the receive buffer is never consumed beyond what it holds", bool(lt), "underrun raises before the cut" if lt else
-             "`%s` is no longer guarded by len(receive_buf) >= %s: a caller consuming a declared length ahead of arrival silently empties the buffer instead of failing (and closing that connection)" % (n.text(50), cr.params[1]), (iow.module, n.ast), 'D4')
+    # by evaluation on a 3-byte buffer: consuming 5 must not complete normally, consuming 2 leaves the last byte
+    def consume (l_):
+      avail = (lambda e: isinstance(e, ast.Attribute) and e.attr == 'available' and norm(e.value) == 'self')
+      outs = set()
+      for p_, e_ in q.paths_under(repo, iow.module, gc_, q.Env({'self.receive_buf': b'abc', cr.params[1]: l_}, [(avail, 3)]), gc_.entry, [gc_.exit], iow, limit=30):
+        outs.add(e_.exact.get('self.receive_buf', '?'))
+      return outs
+    over, within = consume(5), consume(2)
+    if '?' in over | within or not within:
+      ctx.undecided('R-DOM', cr, "the receive buffer is never consumed beyond what it holds", "not evaluable on the sample buffer", cr, 'D4')
+    else:
+      good = not over and within == {b'c'}
+      ctx.ob('R-DOM', cr, "the receive buffer is never consumed beyond what it holds", good, "consume(5) of a 3-byte buffer does not complete; consume(2) leaves 1 byte" if good else
+             "consuming 5 bytes of a 3-byte buffer completes normally (buffer afterwards: %s; consume(2) leaves %s): a caller consuming a declared length ahead of arrival silently empties the buffer instead of failing (and closing that connection)"
+             % (sorted(over), sorted(within)), cr, 'D4')
   ub = repo.cls(LOF, 'ofp_base').methods.get('unpack_new')
   if ub is not None:
     ctx.analysed(ub); g3 = q.cfg_of(ub)
